@@ -305,9 +305,14 @@ def run(chk, replay=None):
                         a["tl"] = rng.randint(0, 3)
                     if phs[cls] == "readcd":
                         a["tl"] = rng.randint(0, 2)
-                        if "mcsb" in a:
-                            a["mcsb"] = 2            # user data only: valid with every expected sector type
-                        if "est" in a:
+                        a["lba"] = rng.randint(0, 2 ** 20)      # sector numbers become result keys: kept below 2^31 for TLC
+                        # user data only is valid with every expected sector type; two calls in three name the sector
+                        # type and the selection, so that the decoded result can be judged by its layout
+                        if "mcsb" in a or rng.random() < 0.66:
+                            a["mcsb"] = 2
+                            a["est"] = rng.randint(1, 5)
+                            sub = tuple(sorted(set(sub) | {"mcsb", "est"}))
+                        elif "est" in a:
                             a["est"] = rng.randint(1, 5)
                     if phs[cls] == "ata":
                         a.update(fetures=rng.randint(0, 3), count=rng.randint(0, 3))
@@ -408,6 +413,15 @@ def run(chk, replay=None):
                     e = cmds.event(cls, setname, aa, phs[cls], cmd, "", data if data is not None and not a.get("ndob") else None)
                     e["method"] = method
                     cons.append(e)
+                    if method == "readcd" and a.get("tl"):
+                        # READ CD: the result is judged against the sector layout the ARGUMENTS select (defaults of
+                        # arguments that were not passed: the ones of the facade's signature)
+                        sig = inspect.signature(getattr(SCSI, "readcd")).parameters
+                        par = {k: int(a.get(k, sig[k].default if k in sig and sig[k].default is not inspect.Parameter.empty else 0))
+                               for k in ("est", "mcsb", "c2ei", "scsb", "tl", "lba")}
+                        unms.append({"ev": "Unmarshal", "fmt": "ReadCd", "bytes": list(cmd.datain), "exc": "", "par": par,
+                                     "out": flatten({str(k): v for k, v in cmd.result.items()}) if cmd.result else {"#empty": []},
+                                     "method": method, "set": setname})
                     if fmt and not fmt.startswith("#") and "bytes" in resp:
                         f2 = fmt
                         if fmt == "RtpgLen" and False:
